@@ -206,10 +206,12 @@ def assumptions_of(targets):
         v = t[:-1]
         if "/Properties/" not in v:
             continue
-        rc, out = sh(["coqc", "-Q", "theories", "Moc", v], cwd=COQ, timeout=1200)
+        with Lock(os.path.join(OUT, "work", "coq.lock")):
+            rc, out = sh(["coqc", "-Q", "theories", "Moc", v], cwd=COQ, timeout=1200)
         closed = out.count("Closed under the global context")
         ax = [l.strip() for l in out.splitlines() if l.strip() and "Closed under the global context" not in l]
-        res[v] = {"rc": rc, "closed": closed, "other_output": ax[:50]}
+        res[v] = {"rc": rc, "closed_under_the_global_context": closed, "axioms_reported": "Axioms:" in out,
+                  "other_output": ax[:50]}
     return res
 
 
@@ -411,7 +413,9 @@ def run_check(prop, tier, seed, replay=None):
     if forbidden:
         broken.append({"file": "sources", "line": 0, "error": "forbidden construct: " + "; ".join(forbidden)})
     assum = {}
-    if ok_proof and (tier == "thorough" or os.environ.get("VERIF_ASSUMPTIONS")):
+    if ok_proof:
+        # the Properties files are tiny (statement + exact): re-compiling them alone re-reads
+        # the Print Assumptions output under every property theorem on every run
         assum = assumptions_of(targets)
         for v, a in assum.items():
             if a["other_output"]:
